@@ -507,13 +507,7 @@ func importTables(c *Ctx) {
 		ok, msg := check(w, rets)
 		run.Check("G-IMPORT/table", key, pos, ok, msg)
 	}
-	importsOf := func(w *regWorld) *interp.MapV {
-		mv, _ := w.mapField(false)
-		if mv == nil {
-			return &interp.MapV{}
-		}
-		return mv
-	}
+	importsOf := func(w *regWorld) *interp.MapV { return w.registered() }
 	keys := func(mv *interp.MapV) string {
 		var ks []string
 		for _, k := range mv.Keys {
@@ -680,6 +674,30 @@ func searchLiveTable(c *Ctx) {
 	}
 	f1, f2 := q1 != qa1 && q1 != "" && qa1 != "", q2 == "dep"
 	run.Check("G-IMPORT/search-live", "table", pos, f1 && f2, fmt.Sprintf("two packages named dep were registered and the first is now qualified %q: a new package named %s ends up as %q next to %q (want distinct), and a package the source imports as dep — a name nobody holds any more — is qualified %q (want dep): conflict resolution renames imports after they were registered, so the search must see current qualifiers, not what was true at registration", qa, qa, q1, qa1, q2))
+}
+
+// registered: what is registered, by canonical path — the registry's map to *Package when it has one,
+// otherwise what the exported API reports (Imports, Package.Path): a registry may keep its imports in a slice.
+func (w *regWorld) registered() *interp.MapV {
+	if mv, _ := w.mapField(false); mv != nil {
+		return mv
+	}
+	out := &interp.MapV{}
+	v, err := w.m.CallMethod(token.NoPos, w.reg, "Imports", nil)
+	if err != nil {
+		return out
+	}
+	if l, ok := v.(*interp.List); ok {
+		for _, p := range l.Elems {
+			pv, err := w.m.CallMethod(token.NoPos, p, "Path", nil)
+			if err != nil {
+				continue
+			}
+			out.Keys = append(out.Keys, pv)
+			out.Vals = append(out.Vals, p)
+		}
+	}
+	return out
 }
 
 // registeredPaths: the import paths the registry reports through its exported API (Imports, Package.Path);
